@@ -8,6 +8,7 @@ import (
 	"encoding/hex"
 	"encoding/json"
 	"errors"
+	"fmt"
 	"io"
 	"os"
 	"runtime"
@@ -55,6 +56,9 @@ func mkErr(kind string) error {
 		return io.ErrUnexpectedEOF
 	case "timeout":
 		return timeoutErr{}
+	case "weof":
+		// an error that wraps io.EOF without being io.EOF: still a failure, not the end of the input
+		return fmt.Errorf("verif: injected failure of the connection: %w", io.EOF)
 	}
 	return errors.New("verif: injected read failure")
 }
